@@ -181,6 +181,10 @@ def exec_valid_full(case):
     if abs(1 - betas[-1]) >= 1e-4 or ess < n_total * (1 - 1e-9) or abs(float(s.evidence()[0]) - float(lz)) > 1e-9 * max(1, abs(float(lz))):
         raise Violation(f"Sampler({label}).run() returned without the run postconditions (beta {betas[-1]!r}, ESS {ess:.2f} vs n_total {n_total}, "
                         f"evidence {s.evidence()[0]!r} vs reference {float(lz)!r})", sig={"kind": "postconditions"})
+    if case["rs_value"] % 2 == 0:
+        # the object stays usable after a completed run: one more public call (whatever resources run() set up and tore down)
+        with quiet():
+            lib_call(s.sample, what=f"Sampler({label}).run() then sample()")
     return {"nontrivial": True, "classes": ["mode:" + case["mode"], "pool:%s" % case["pool"], "save_every:%s" % case["save_every"], "metric:" + case["metric"]],
             "sample": dict(cfggen.summary(case), save_every=case["save_every"], iterations=T)}
 
